@@ -1,4 +1,7 @@
 import PyaModel.Proofs.C04
+import PyaModel.Proofs.C04Mono
+import PyaModel.Proofs.C04Refl
+import PyaModel.Proofs.C04Sound
 import PyaModel.Generated.ClassTable
 /-!
 # Props/C04 — type-to-type assignability: lattice laws of the model `ca`
@@ -51,5 +54,252 @@ theorem annotatedNever_fixed (tbl : ClassTable) (x : Bool) :
     ca tbl x (.typed C.int) (.annotated Ty.never) = true ∧
     ca tbl x (.union [.typed C.int, .typed C.str]) (.annotated Ty.never) = true := by
   constructor <;> simp [Ty.never, ca, caAllR]
+
+/-! # Second half: exclude-any monotonicity, reflexivity, `object` as top, soundness for membership
+
+All four are stated for **every** class table satisfying the decidable laws `tableOk`
+(Spec/TableLaws.lean, re-checked on the regenerated live table by the kernel on every run:
+`liveTable_ok4` below) and for all terms — no size bound. Side conditions are decidable predicates
+of Spec/WF.lean, Spec/D03.lean, Spec/D04.lean, Spec/D04Sound.lean. -/
+
+/-- Obligation over the regenerated class table: the class-level verdicts of the live tree satisfy
+the table laws, including those added for the theorems below (`c04Law`: mode-monotone, reflexive,
+`object` on top, transitive outside non-generic protocols, generic bases of the builtin containers). -/
+theorem liveTable_ok4 : tableOk liveTable = true := by decide +kernel
+
+/-- **Switching on the "Any only matches Any" mode never turns a rejection into an acceptance**:
+whatever `A.can_assign(B)` accepts under `should_exclude_any()` it accepts in the normal mode.
+For all terms (no well-formedness needed). -/
+theorem exclude_any_monotone (tbl : ClassTable) (htbl : tableOk tbl = true) (a b : Ty)
+    (h : ca tbl true a b = true) : ca tbl false a b = true :=
+  let L4 := laws4_of_tableOk tbl htbl
+  ca_mono_all tbl L4.monoN L4.monoK L4.monoC a b h
+
+/-- **Every type accepts itself**, in both modes: for every term that is well-formed in the weak
+sense `Ty.wfR` (class ids in range, generics fully applied, unpacked members only inside sequence
+forms, no free type variable; `Any`, NewTypes, literals, `type[Protocol]`, variadic tuples allowed). -/
+theorem assign_refl (tbl : ClassTable) (htbl : tableOk tbl = true) (x : Bool) (a : Ty)
+    (ha : a.wfR tbl = true) : ca tbl x a a = true :=
+  (ca_refl_all (laws4_of_tableOk tbl htbl) x a).1 ha
+
+/-- `Ty.wfR` covers every fully static well-formed type (`Ty.wf`). -/
+theorem wfR_of_wf_static (tbl : ClassTable) (htbl : tableOk tbl = true) (a : Ty)
+    (ha : a.wf tbl = true) : a.wfR tbl = true :=
+  (wfR_of_wf (laws_of_tableOk tbl htbl) a).1 ha
+
+/-- **`object` accepts everything**, in both modes: every Any-free well-formed right-hand side
+(`Ty.wfB`: as `Ty.wf`, protocols under `type[...]` allowed). -/
+theorem assign_object_top (tbl : ClassTable) (htbl : tableOk tbl = true) (x : Bool) (b : Ty)
+    (hb : b.wfB tbl = true) : ca tbl x (.typed C.object) b = true :=
+  ca_object_top (laws_of_tableOk tbl htbl) (laws4_of_tableOk tbl htbl) x b hb
+
+/-- `Ty.wfB` covers every fully static well-formed type (`Ty.wf`). -/
+theorem wfB_of_wf_static (tbl : ClassTable) (a : Ty) (ha : a.wf tbl = true) : a.wfB tbl = true :=
+  (wfB_of_wf a).1 ha
+
+/-- **C04 soundness, full-strength statement** (false of the pinned pyanalyze even outside the
+documented leniencies: see the witnesses below). Between fully static types, whenever `B` is
+accepted where `A` is expected, every object of `B` is an object of `A`. -/
+def AssignSound (tbl : ClassTable) : Prop :=
+  ∀ (A B : Ty) (o : Obj), A.wf tbl = true → B.wfB tbl = true → strict04 tbl A B = true →
+    o.wf tbl = true → ca tbl false A B = true → mem tbl o B = true → mem tbl o A = true
+
+/-- **C04 soundness outside the exception classes.** For every class table satisfying `tableOk`,
+every fully static well-formed `A` (`Ty.wf`), every Any-free well-formed `B` (`Ty.wfB`) outside the
+documented leniencies (`strict04`: no bare generic / bare `type` / frozenset literal in `B`; not a
+fixed-length sequence form in `A` against a homogeneous generic in `B`) and outside the exception
+classes `d04Sound` (`protoDown` ⊇ `metaclassAttr`, `virtualMeta`, `newtypeBase`,
+`metaclassTyped`, `literalEq`, `protoClassObj` — each with a witness below): if the model of pyanalyze's
+`A.can_assign(B)` succeeds, then every well-formed object without a frozenset inside that belongs
+to `B` belongs to `A`. -/
+theorem assign_sound_partial (tbl : ClassTable) (htbl : tableOk tbl = true) (A B : Ty)
+    (hA : A.wf tbl = true) (hB : B.wfB tbl = true) (hs : strict04 tbl A B = true)
+    (hd : d04Sound tbl A B = false) (hca : ca tbl false A B = true)
+    (o : Obj) (ho : o.wf tbl = true) (hof : o.hasFset = false) (hm : mem tbl o B = true) :
+    mem tbl o A = true :=
+  sound_all (laws_of_tableOk tbl htbl) (laws4_of_tableOk tbl htbl) A B hA hB (SH_of_bool hs hd) hca
+    o ho hof hm
+
+/-- The same statement for the class table regenerated from the live tree. -/
+theorem assign_sound_live (A B : Ty) (hA : A.wf liveTable = true) (hB : B.wfB liveTable = true)
+    (hs : strict04 liveTable A B = true) (hd : d04Sound liveTable A B = false)
+    (hca : ca liveTable false A B = true)
+    (o : Obj) (ho : o.wf liveTable = true) (hof : o.hasFset = false)
+    (hm : mem liveTable o B = true) : mem liveTable o A = true :=
+  assign_sound_partial liveTable liveTable_ok4 A B hA hB hs hd hca o ho hof hm
+
+/-! ## Witnesses: soundness fails in each exception class (live table)
+
+Each witness: the pair is well-formed and outside the leniencies, the model accepts `B` for `A`,
+the object belongs to `B` and not to `A`. Every disjunct of `d04Sound` has one. -/
+
+/-- class `protoDown` (the part already known as `metaclassAttr`): `Iterable` (15) accepts the Enum
+class `Color` (27) — the *metaclass* defines `__iter__` — but a `Color` member is not iterable. -/
+theorem metaclassAttr_witness :
+    ca liveTable false (.typed 15) (.typed 27) = true ∧
+    mem liveTable (.inst 27 0) (.typed 27) = true ∧ mem liveTable (.inst 27 0) (.typed 15) = false := by
+  simp only [ca, typedCA, typOf, mem, clsOf]
+  decide +kernel
+
+/-- class `protoDown`, new part: `Hashable` (19) accepts `object` (0) (`object.__hash__` exists), but
+the list `[]` is an `object` and is not hashable — `issubclass` is not transitive at `Hashable`. -/
+theorem protoDown_witness :
+    ca liveTable false (.typed 19) (.typed 0) = true ∧
+    mem liveTable (.list []) (.typed 0) = true ∧ mem liveTable (.list []) (.typed 19) = false := by
+  simp only [ca, typedCA, typOf, mem, clsOf]
+  decide +kernel
+
+/-- class `virtualMeta`: `ABCMeta` (32) accepts `type[Sequence]` (class 14, whose metaclass it is),
+but the class object `list` is a `type[Sequence]` (virtual subclass) and `type(list)` is `type`. -/
+theorem virtualMeta_witness :
+    ca liveTable false (.typed 32) (.subclass 14) = true ∧
+    mem liveTable (.cls 9) (.subclass 14) = true ∧ mem liveTable (.cls 9) (.typed 32) = false := by
+  simp only [ca, typedCA, typOf, mem, clsOf]
+  decide +kernel
+
+/-- class `metaclassTyped`: `type[Color]` accepts a value of the metaclass type `EnumType` (31), but
+the class object `IE` (28, another Enum) is an `EnumType` and not a subclass of `Color`. -/
+theorem metaclassTyped_witness :
+    ca liveTable false (.subclass 27) (.typed 31) = true ∧
+    mem liveTable (.cls 28) (.typed 31) = true ∧ mem liveTable (.cls 28) (.subclass 27) = false := by
+  simp only [ca, mem, clsOf]
+  decide +kernel
+
+/-- class `newtypeBase`: a NewType over `int` accepts `int`, but `True` is an `int` and not a member
+of the NewType (whose members are the objects of class exactly `int`). -/
+theorem newtypeBase_witness :
+    ca liveTable false (.newtype 0 C.int) (.typed C.int) = true ∧
+    mem liveTable (.bool true) (.typed C.int) = true ∧
+    mem liveTable (.bool true) (.newtype 0 C.int) = false := by
+  simp only [ca, typedCA, typOf, mem, clsOf]
+  decide +kernel
+
+/-- class `literalEq` (an artefact of literal equality, not of `can_assign`): `tuple[bool, ...]`
+accepts `Literal[(True,)]`; `(1,) == (True,)` and both are tuples, so `(1,)` belongs to the literal
+type, but `1` is not a `bool`. -/
+theorem literalEq_witness :
+    ca liveTable false (.generic C.tuple [.typed C.bool]) (.known (.tuple [.bool true])) = true ∧
+    mem liveTable (.tuple [.int 1]) (.known (.tuple [.bool true])) = true ∧
+    mem liveTable (.tuple [.int 1]) (.generic C.tuple [.typed C.bool]) = false := by
+  have h : liveTable.gbase C.tuple C.tuple = some [.param 0] := by rfl
+  simp only [ca, theirArgs, h, instArgs, typedCA, mem, memArgs, memAll, clsOf, Option.map_some,
+    List.map_cons, List.map_nil, List.getD_cons_zero, List.length_cons, List.length_nil,
+    beq_self_eq_true, if_true, caArgs, caArg, caMems]
+  decide +kernel
+
+/-- class `protoClassObj` (the C03 class): `Container` (17) accepts the literal class object `dict`. -/
+theorem protoClassObj_witness4 :
+    ca liveTable false (.typed 17) (.known (.cls C.dict)) = true ∧
+    mem liveTable (.cls C.dict) (.known (.cls C.dict)) = true ∧
+    mem liveTable (.cls C.dict) (.typed 17) = false := by
+  simp only [ca, typedCA, mem, clsOf]
+  decide +kernel
+
+/-- The object-side condition "no frozenset inside `o`" is needed as well: `list[set[int]]` accepts
+`Literal[[{5}]]`; `[frozenset({5})] == [{5}]` and both are lists, so it belongs to the literal type,
+but a frozenset is not a `set`. -/
+theorem fsetObject_witness :
+    ca liveTable false (.generic C.list [.generic C.set [.typed C.int]])
+      (.known (.list [.set [.int 5]])) = true ∧
+    mem liveTable (.list [.fset [.int 5]]) (.known (.list [.set [.int 5]])) = true ∧
+    mem liveTable (.list [.fset [.int 5]]) (.generic C.list [.generic C.set [.typed C.int]]) = false := by
+  have h1 : liveTable.gbase C.list C.list = some [.param 0] := by rfl
+  have h2 : liveTable.gbase C.set C.set = some [.param 0] := by rfl
+  simp only [ca, theirArgs, h1, h2, instArgs, typedCA, mem, memArgs, memAll, clsOf, Option.map_some,
+    List.map_cons, List.map_nil, List.getD_cons_zero, List.length_cons, List.length_nil,
+    beq_self_eq_true, if_true, caArgs, caArg, caMems]
+  decide +kernel
+
+/-- Hence the full statement fails on the live table. -/
+theorem assignSound_live_false : ¬ AssignSound liveTable := by
+  intro h
+  have := h (.typed 19) (.typed 0) (.list []) (by decide +kernel) (by decide +kernel)
+    (by decide +kernel) (by decide +kernel) protoDown_witness.1 protoDown_witness.2.1
+  rw [protoDown_witness.2.2] at this
+  cases this
+
+/-- The two leniencies of the property text are real: L1 `list[int]` accepts bare `list`, L2
+`tuple[()]` accepts `tuple[int, ...]`. -/
+theorem leniency_witnesses :
+    (ca liveTable false (.generic C.list [.typed C.int]) (.typed C.list) = true ∧
+      mem liveTable (.list [.str "a"]) (.typed C.list) = true ∧
+      mem liveTable (.list [.str "a"]) (.generic C.list [.typed C.int]) = false) ∧
+    (ca liveTable false (.seq C.tuple []) (.generic C.tuple [.typed C.int]) = true ∧
+      mem liveTable (.tuple [.int 1]) (.generic C.tuple [.typed C.int]) = true ∧
+      mem liveTable (.tuple [.int 1]) (.seq C.tuple []) = false) := by
+  have h1 : liveTable.gbase C.list C.list = some [.param 0] := by rfl
+  have h2 : liveTable.gbase C.tuple C.tuple = some [.param 0] := by rfl
+  simp only [ca, theirArgs, h1, h2, instArgs, typedCA, typOf, mem, memArgs, memAll, memSeq,
+    matchSeq, clsOf, Option.map_some, List.map_cons, List.map_nil, List.getD_cons_zero, List.getD_nil,
+    List.length_cons, List.length_nil, beq_self_eq_true, if_true, caArgs, caArg, caAnyM, ca_any]
+  decide +kernel
+
+/-! ## Non-vacuity: the hypotheses are met by non-trivial inputs -/
+
+/-- `list[int | str]` accepts `list[bool]` in the "Any only matches Any" mode, hence in the normal one. -/
+example : ca liveTable false (.generic C.list [.union [.typed C.int, .typed C.str]])
+    (.generic C.list [.typed C.bool]) = true := by
+  refine exclude_any_monotone liveTable liveTable_ok4 _ _ ?_
+  have h : liveTable.gbase C.list C.list = some [.param 0] := by rfl
+  simp only [ca, theirArgs, h, instArgs, typedCA, typOf, Option.map_some, List.map_cons,
+    List.map_nil, List.getD_cons_zero, List.length_cons, List.length_nil, beq_self_eq_true, if_true,
+    caArgs, caArg, caAnyL]
+  decide +kernel
+/-- … while a union accepts `Any` only in the normal mode (the two modes differ). -/
+example : ca liveTable true (.union [.typed C.int, .typed C.str]) .any = false ∧
+    ca liveTable false (.union [.typed C.int, .typed C.str]) .any = true := by
+  simp [ca, caAnyL]
+
+/-- `Mapping[int, tuple[*tuple[str, ...], type[Iterable]]] | Literal[1.5-ish class object]`:
+a two-parameter ABC, a variadic tuple, `type[Protocol]`, a union, a literal. -/
+def exTyR : Ty :=
+  .union [.generic 18 [.typed C.int, .seq C.tuple [.many (.typed C.str), .subclass 15]], .known (.cls C.float)]
+example : exTyR.wfR liveTable = true := by decide +kernel
+example : exTyR.wf liveTable = false := by decide +kernel
+example : ca liveTable true exTyR exTyR = true :=
+  assign_refl liveTable liveTable_ok4 true exTyR (by decide +kernel)
+/-- every fully static well-formed type is covered by `wfR` and `wfB` -/
+example : (Ty.generic 18 [.typed C.int, .seq C.tuple [.typed C.float, .subclass C.int]]).wfR liveTable = true :=
+  wfR_of_wf_static liveTable liveTable_ok4 _ (by decide +kernel)
+example : (Ty.generic 18 [.typed C.int, .seq C.tuple [.typed C.float, .subclass C.int]]).wfB liveTable = true :=
+  wfB_of_wf_static liveTable _ (by decide +kernel)
+example : exTyR.wfB liveTable = true := by decide +kernel
+example : ca liveTable true (.typed C.object) exTyR = true :=
+  assign_object_top liveTable liveTable_ok4 true exTyR (by decide +kernel)
+
+/-- `Sequence[float]` ← `list[bool] | tuple[int, float]`: an ABC target, promotion, a union and a
+fixed-length tuple on the right. -/
+def exA : Ty := .generic 14 [.typed C.float]
+def exB : Ty := .union [.generic C.list [.typed C.bool], .seq C.tuple [.typed C.int, .typed C.float]]
+def exO : Obj := .tuple [.int 1, .flt 0]
+example : exA.wf liveTable = true := by decide +kernel
+example : exB.wfB liveTable = true := by decide +kernel
+example : strict04 liveTable exA exB = true := by decide +kernel
+example : d04Sound liveTable exA exB = false := by decide +kernel
+example : exO.wf liveTable = true := by decide +kernel
+example : exO.hasFset = false := by decide +kernel
+/-- `Sequence[str] | tuple[int, *tuple[str, ...]]` ← `Literal["a"] | tuple[bool, *tuple[str, ...]]`:
+a variadic tuple on both sides and a `str` literal against a generic ABC are inside the theorem. -/
+def exA2 : Ty := .union [.generic 14 [.typed C.str], .seq C.tuple [.typed C.int, .many (.typed C.str)]]
+def exB2 : Ty := .union [.known (.str "a"), .seq C.tuple [.typed C.bool, .many (.typed C.str)]]
+example : exA2.wf liveTable = true := by decide +kernel
+example : exB2.wfB liveTable = true := by decide +kernel
+example : strict04 liveTable exA2 exB2 = true := by decide +kernel
+example : d04Sound liveTable exA2 exB2 = false := by decide +kernel
+
+theorem exAB_accepts : ca liveTable false exA exB = true := by
+  have h1 : liveTable.gbase C.list 14 = some [.param 0] := by rfl
+  have h2 : liveTable.gbase C.tuple 14 = some [.param 0] := by rfl
+  simp only [exA, exB, ca, caAllR, theirArgs, h1, h2, instArgs, typedCA, typOf, Option.map_some,
+    List.map_cons, List.map_nil, List.getD_cons_zero, List.length_cons, List.length_nil,
+    beq_self_eq_true, if_true, caArgs, caArg, caMems]
+  decide +kernel
+theorem exO_in_B : mem liveTable exO exB = true := by
+  simp only [exO, exB, mem, memAny, memArgs, memAll, memSeq, matchSeq, clsOf]
+  decide +kernel
+/-- the conclusion, through the theorem -/
+example : mem liveTable exO exA = true :=
+  assign_sound_live exA exB (by decide +kernel) (by decide +kernel) (by decide +kernel)
+    (by decide +kernel) exAB_accepts exO (by decide +kernel) (by decide +kernel) exO_in_B
 
 end Pya
